@@ -413,7 +413,7 @@ def gen_point(rng, depth_left, allow_inf, budget):
   if allow_inf and r < 16:
     return U()
   n = rng.weighted([(2, 1), (5, 2), (5, 3), (3, 4), (1, 5)])
-  k = rng.weighted([(6, 1), (4, 2), (2, 3), (1, 4)])
+  k = rng.weighted([(5, 1), (4, 2), (3, 3), (1, 4)])
   d = rng.chance(0.55)
   s = rng.chance(0.4)
   if d and k > n:
